@@ -68,6 +68,8 @@ class Kinds:
             return self._elements(seq.args[0], st, depth)
         if isinstance(seq, ast.Call) and isinstance(seq.func, ast.Name) and seq.func.id == "filter" and len(seq.args) == 2:
             return self._elements(seq.args[1], st, depth)
+        if isinstance(seq, (ast.GeneratorExp, ast.ListComp)) and len(seq.generators) == 1 and isinstance(seq.elt, ast.Name) and isinstance(seq.generators[0].target, ast.Name) and seq.elt.id == seq.generators[0].target.id:
+            return self._elements(seq.generators[0].iter, st, depth)  # a filtered copy of the sequence
         if isinstance(seq, ast.Call) and isinstance(seq.func, ast.Name) and seq.func.id == "collect_ast" and len(seq.args) == 2 and isinstance(seq.args[1], ast.Constant) and seq.args[1].value in self.sch.kinds:
             return frozenset({seq.args[1].value})  # ngo.utils.ast.collect_ast(x, "Kind") returns nodes of that kind
         if isinstance(seq, ast.Attribute):
